@@ -319,6 +319,19 @@ def _mk_group(sname):
                                      "amplitude models that iterate chains_idx directly would add it twice)" % (list(sel),))
                     ctx.eq("res[%s]/density" % "+".join(sel), amp(sdata), dens,
                            clause="after set_used_res(%s): AmplitudeModel(data) == sum_helicities |sum of the chains containing one of them|^2" % (list(sel),))
+            # selections that MIX resonance names and chain indices (temp_used_res / partial_weight(combine=...) accept both): an index that a name already selects
+            # must not be listed twice, and not_full must say whether the selection is a strict subset (the traced full-amplitude graph is reused when it is False)
+            for rname in res:
+                for k in range(n):
+                    for k2 in ([None] + list(range(n)) if n <= 3 else [None]):
+                        sel = [rname, k] + ([k2] if k2 is not None else [])
+                        amp.set_used_res(list(sel))
+                        S = sorted({j for j, c in enumerate(dg.chains) if any(str(p_) == rname for p_ in c.inner)} | {x for x in sel[1:]})
+                        idx = list(dg.chains_idx)
+                        ctx.holds("mixed[%s]/each_selected_chain_once" % "+".join(str(x) for x in sel),
+                                  tf.constant(sorted(idx) == S and len(set(idx)) == len(idx) and (bool(dg.not_full) or len(S) == n)),
+                                  clause="after set_used_res(%s): chains_idx == chains of the named resonances united with the listed indices, each once; a strict subset is flagged "
+                                         "not_full (the converse - a full selection flagged not_full - only disables the cached path and is not demanded)" % (sel,))
             amp.set_used_chains(list(range(n)))
             ctx.eq("restored/density", amp(sdata), expect(list(range(n)))[1], clause="after selecting all chains again: the full density")
             # temporary selection: restored on normal exit AND when the body raises
